@@ -128,7 +128,7 @@ Definition spec_step_ok (keys : list bytes) (pre : smap) (st : stp) : bool :=
                    forallb (fun k => upto_new_b (length (remove_avail (vals_of k dels) (pre k))) (m' k) (post k)) keys
       | None => failed && same_on keys post pre
       end
-  | OBackupRestore => negb failed && same_on keys post pre
+  | OBackupRestore | OReopen => negb failed && same_on keys post pre
   end.
 
 Fixpoint spec_steps_ok (keys : list bytes) (pre : smap) (sts : list stp) : bool :=
@@ -143,7 +143,7 @@ Definition op_keys_in (keys : list bytes) (o : op) : bool :=
   match o with
   | OAdd k _ | ODel k _ => key_in keys k
   | OBatch adds dels => forallb (fun p => key_in keys (fst p)) (adds ++ dels)
-  | OBackupRestore => true
+  | OBackupRestore | OReopen => true
   end.
 
 (* the property itself, evaluated on the implementation's observations *)
